@@ -517,3 +517,99 @@ theorem race_link_any (fixed kill : Bool) (s : State) (hi : Inv s) (a c d k n : 
   exact race_aux fixed a c d n _ _ (hcov d hd) hinv horph hdone
 
 end Tree
+
+namespace Tree
+
+/-! ### handing a child over while its supervisor is exiting -/
+
+/-- after an accepted (re)link the child is in exactly one child set: its new supervisor's -/
+theorem relink_unique {s : State} (hi : Inv s) {c b : Nat} (h : (link s c b).2 = true) (p : Nat) :
+    child (link s c b).1 p c ↔ p = b := by
+  have hi2 := hi.link c b
+  have hsup := (link_true h).2.2
+  constructor
+  · intro hc
+    have := (hi2.links c p).mpr hc
+    rw [hsup] at this; exact (Option.some.inj this).symm
+  · rintro rfl; exact (hi2.links c p).mp hsup
+
+/-- … and it is beneath `a` only if its new supervisor is -/
+theorem desc_of_relinked {s : State} (hi : Inv s) {a b c : Nat} (h : (link s c b).2 = true) (hca : c ≠ a)
+    (hd : Desc (link s c b).1 a c) : Desc (link s c b).1 a b := by
+  cases hd with
+  | refl => exact absurd rfl hca
+  | tail hw hc => rw [(relink_unique hi h _).mp hc] at hw; exact hw
+
+/-- the exit of a former supervisor does not touch a child that was handed over to somebody outside its
+subtree: no kill signal, the new link stays -/
+theorem relink_escapes_exit (fixed : Bool) {s : State} (hi : Inv s) {a b c : Nat} (h : (link s c b).2 = true)
+    (hca : c ≠ a) (hnb : ¬ Desc (link s c b).1 a b) :
+    (exit fixed (link s c b).1 a).killed c = s.killed c := by
+  have hi2 := hi.link c b
+  have hk := exit_killed fixed _ a hi2 c
+  have hkl : (link s c b).1.killed = s.killed := (link_other hi (c := c) (p := b) (z := c)).2.2.2.2.1
+  cases hkc : s.killed c with
+  | true => exact hk.mpr (.inl (by rw [hkl]; exact hkc))
+  | false =>
+    cases hk' : (exit fixed (link s c b).1 a).killed c with
+    | false => rfl
+    | true =>
+      rcases hk.mp hk' with h1 | h1
+      · rw [hkl, hkc] at h1; cases h1
+      · exact absurd (desc_of_relinked hi h hca h1.1) hnb
+
+theorem detachSelf_sup_ne (s : State) {a z : Nat} (h : z ≠ a) : (detachSelf s a).sup z = s.sup z := by
+  unfold detachSelf
+  cases hs : s.sup a with
+  | none => rfl
+  | some p =>
+    show (Tree.unlink s a p).sup z = s.sup z
+    simp only [Tree.unlink, hs, ↓reduceIte]
+    exact upd_ne _ _ h
+
+/-- The `post_stop` window of a graceful exit as a race: `a` has published `Stopping` (step 1 of its exit)
+and has not yet taken its children; its child `c` is relinked (one atomic region) to a supervisor `b`
+outside `a`'s subtree; then `a` finishes its exit.  The link is accepted on the merits of `c` and `b`
+alone, and at the end `c` has not been sent a kill signal by that exit and is still supervised by `b`. -/
+theorem race_relink_post_stop (fixed : Bool) (s : State) (hi : Inv s) (a b c n : Nat) (hca : c ≠ a)
+    (hres : (link (setStatus s a .stopping) c b).2 = true)
+    (hnb : ¬ Desc (link (setStatus s a .stopping) c b).1 a b)
+    (hdone : (raceRun fixed false s a c b 1 n).1.pc = .done) :
+    (raceRun fixed false s a c b 1 n).2 = true ∧
+    (raceRun fixed false s a c b 1 n).1.t.killed c = s.killed c ∧
+    (raceRun fixed false s a c b 1 n).1.t.sup c = some b ∧
+    (∀ p, child (link (setStatus s a .stopping) c b).1 p c ↔ p = b) := by
+  have hi1 : Inv (setStatus s a .stopping) := hi.setStatus a _ (by decide)
+  have hi2 := hi1.link c b
+  have e1 : xrun fixed a 1 (xinit false a s) = ⟨setStatus s a .stopping, .loop [a]⟩ := rfl
+  have efin : (raceRun fixed false s a c b 1 n).1 =
+      xrun fixed a n ⟨(link (setStatus s a .stopping) c b).1, .loop [a]⟩ := by
+    simp only [raceRun, e1]
+  have eres : (raceRun fixed false s a c b 1 n).2 = (link (setStatus s a .stopping) c b).2 := by
+    simp only [raceRun, e1]
+  rw [efin] at hdone ⊢
+  rw [eres]
+  obtain ⟨k, hk⟩ := xrun_from_loop fixed a _ [a] hi2
+  rw [xrun_done_unique' fixed a _ _ k n hk hdone]
+  obtain ⟨_, _, _, D, E⟩ := loop_spec fixed ([a].length + totalKids _ _) _ [a] hi2 (Nat.le_refl _)
+  have hnd : ¬ Desc (link (setStatus s a .stopping) c b).1 a c := fun hd => hnb (desc_of_relinked hi1 hres hca hd)
+  have hkl : (link (setStatus s a .stopping) c b).1.killed = s.killed :=
+    (link_other hi1 (c := c) (p := b) (z := c)).2.2.2.2.1
+  refine ⟨hres, ?_, ?_, relink_unique hi1 hres⟩
+  · rw [finish_killed]
+    cases hkc : s.killed c with
+    | true => exact (E c).mpr (.inl (by rw [hkl]; exact hkc))
+    | false =>
+      cases hk' : (loop fixed ([a].length + totalKids _ _) (link (setStatus s a .stopping) c b).1 [a]).killed c with
+      | false => rfl
+      | true =>
+        rcases (E c).mp hk' with h1 | h1
+        · rw [hkl, hkc] at h1; cases h1
+        · exact absurd (reach_single.mp h1.1) hnd
+  · show (detachSelf _ a).sup c = some b
+    rw [detachSelf_sup_ne _ hca, D c, (link_true hres).2.2]
+    rintro ⟨w, hw, hc⟩
+    rw [(relink_unique hi1 hres w).mp hc] at hw
+    exact hnb (reach_single.mp hw)
+
+end Tree
